@@ -17,6 +17,14 @@ hash hypotheses `HashSound` (equal cache keys ⇒ equal residual formulas) and `
 hash and sat-flag).  `RsddModel/Lemmas/TopDownNaive.lean` proves all four for the executable
 reference solver `NaiveSolver`, so the theorems are not vacuous.
 
+The contract is deliberately weak in three places, because the real `SATSolver` does not satisfy
+more (`Lemmas/UpSolverSpec.lean`; the instance for the real solver is `Props/C06Real.lean`):
+`decide` is only specified for the variables in `spec.Var` (labels in range), so the order has to
+map the levels below `numVars` into `spec.Var` (`hrange`); `pop` is only specified above the
+two-frame stack `SATSolver::new` returns; and the solver may be built on a clause list `cnf0`
+other than the one the specification is about (`NewSpec spec cnf0 numVars`) — for the real solver
+`cnf` is the non-tautological part of `cnf0`, which has the same models.
+
 What was ADDED to the brief's list of solver facts, and why:
 * `FreeDecide` and the relevance clause of `decide_ok` (newly assigned variables other than
   the decision occur in the residual formula).  A cached diagram is reused under a different
@@ -45,6 +53,7 @@ state reachable from `SATSolver::new` has), with a sound cache, `topdown_h` retu
 theorem topdownH_correct (spec : SolverSpec cnf S) {NS : NodeStore} {inv : NS.τ → Prop}
     (hNS : NS.Sound inv) (varAt : Nat → Nat) (hhash : HashSound spec) (hfree : FreeDecide spec)
     (numVars : Nat) (hvarAt : ∀ v, InCnf cnf v → ∃ i, i < numVars ∧ varAt i = v)
+    (hrange : ∀ i, i < numVars → spec.Var (varAt i))
     (rem level : Nat) (s : S.σ) (cache : Cache S.κ) (t : NS.τ) (f0 : Frame S.κ) (rest : List (Frame S.κ))
     (hl : level + rem = numVars) (hI : spec.Inv s) (hfr : spec.frames s = f0 :: rest)
     (hrest : rest ≠ []) (ht : inv t) (hc : CacheOK spec cache) (hlev : ∀ i, i < level → spec.modelOf s (varAt i) ≠ none) :
@@ -57,7 +66,7 @@ theorem topdownH_correct (spec : SolverSpec cnf S) {NS : NodeStore} {inv : NS.τ
     spec.Inv res.2.1 ∧ spec.frames res.2.1 = spec.frames s ∧ CacheOK spec res.2.2.1 ∧ inv res.2.2.2 := by
   rw [spec.modelOf_eq hfr] at hlev ⊢
   obtain ⟨hg, h1, h2, h3, h4⟩ :=
-    topdownH_post spec hNS varAt hhash hfree numVars hvarAt rem level s cache t f0 rest hl hI hfr hrest ht hc hlev
+    topdownH_post spec hNS varAt hhash hfree numVars hvarAt hrange rem level s cache t f0 rest hl hI hfr hrest ht hc hlev
   refine ⟨hg.sem, hg.free, ?_, hg.nonfalse, h1, h2.trans hfr.symm, h3, h4⟩
   intro v hv
   have hu := residual_unset (hg.vars v hv)
@@ -68,35 +77,41 @@ CNF on all assignments, decides no variable twice on a path, and is the false co
 when the CNF is unsatisfiable. -/
 theorem compileTopdown_correct_store (spec : SolverSpec cnf S) {NS : NodeStore} {inv : NS.τ → Prop}
     (hNS : NS.Sound inv) (varAt : Nat → Nat) (hhash : HashSound spec) (hfree : FreeDecide spec)
-    (numVars : Nat) (hnew : NewSpec spec numVars)
-    (hvarAt : ∀ v, InCnf cnf v → ∃ i, i < numVars ∧ varAt i = v) (t : NS.τ) (ht : inv t) :
-    (∀ a, (compileTopdown S NS varAt cnf numVars t).1.eval a = cnfSat a cnf) ∧
-    (compileTopdown S NS varAt cnf numVars t).1.free ∧
-    ((compileTopdown S NS varAt cnf numVars t).1 = .fls ↔ ∀ a, cnfSat a cnf = false) :=
-  let h := compileTopdown_post spec hNS varAt hhash hfree numVars hnew hvarAt t ht
+    (cnf0 : Cnf) (numVars : Nat) (hnew : NewSpec spec cnf0 numVars)
+    (hvarAt : ∀ v, InCnf cnf v → ∃ i, i < numVars ∧ varAt i = v)
+    (hrange : ∀ i, i < numVars → spec.Var (varAt i)) (t : NS.τ) (ht : inv t) :
+    (∀ a, (compileTopdown S NS varAt cnf0 numVars t).1.eval a = cnfSat a cnf) ∧
+    (compileTopdown S NS varAt cnf0 numVars t).1.free ∧
+    ((compileTopdown S NS varAt cnf0 numVars t).1 = .fls ↔ ∀ a, cnfSat a cnf = false) :=
+  let h := compileTopdown_post spec hNS varAt hhash hfree cnf0 numVars hnew hvarAt hrange t ht
   ⟨h.1, h.2.1, h.2.2.1⟩
 
 /-- **`compile_cnf_topdown`, standard (structural) node store.** -/
 theorem compileTopdown_correct (spec : SolverSpec cnf S) (varAt : Nat → Nat)
-    (hhash : HashSound spec) (hfree : FreeDecide spec) (numVars : Nat) (hnew : NewSpec spec numVars)
-    (hvarAt : ∀ v, InCnf cnf v → ∃ i, i < numVars ∧ varAt i = v) :
-    (∀ a, (compileTopdown S standardStore varAt cnf numVars ()).1.eval a = cnfSat a cnf) ∧
-    (compileTopdown S standardStore varAt cnf numVars ()).1.free ∧
-    ((compileTopdown S standardStore varAt cnf numVars ()).1 = .fls ↔ ∀ a, cnfSat a cnf = false) :=
-  compileTopdown_correct_store spec standardStore_sound varAt hhash hfree numVars hnew hvarAt () trivial
+    (hhash : HashSound spec) (hfree : FreeDecide spec) (cnf0 : Cnf) (numVars : Nat)
+    (hnew : NewSpec spec cnf0 numVars)
+    (hvarAt : ∀ v, InCnf cnf v → ∃ i, i < numVars ∧ varAt i = v)
+    (hrange : ∀ i, i < numVars → spec.Var (varAt i)) :
+    (∀ a, (compileTopdown S standardStore varAt cnf0 numVars ()).1.eval a = cnfSat a cnf) ∧
+    (compileTopdown S standardStore varAt cnf0 numVars ()).1.free ∧
+    ((compileTopdown S standardStore varAt cnf0 numVars ()).1 = .fls ↔ ∀ a, cnfSat a cnf = false) :=
+  compileTopdown_correct_store spec standardStore_sound varAt hhash hfree cnf0 numVars hnew hvarAt hrange
+    () trivial
 
 /-- **`compile_cnf_topdown`, semantic node store — PARTIAL: under `CollisionFree`.**
 Unconditional correctness is false by pigeonhole (finitely many hash values, unboundedly many
 functions); the hypothesis is the explicit `H-coll`. -/
 theorem compileTopdown_correct_semantic_partial (spec : SolverSpec cnf S) (varAt : Nat → Nat)
     {H : Type} [DecidableEq H] (semHash : Ptr → H) (negH key : H → H) (hcf : CollisionFree semHash negH key)
-    (hhash : HashSound spec) (hfree : FreeDecide spec) (numVars : Nat) (hnew : NewSpec spec numVars)
-    (hvarAt : ∀ v, InCnf cnf v → ∃ i, i < numVars ∧ varAt i = v) :
-    (∀ a, (compileTopdown S (semanticStore semHash negH key) varAt cnf numVars []).1.eval a = cnfSat a cnf) ∧
-    (compileTopdown S (semanticStore semHash negH key) varAt cnf numVars []).1.free ∧
-    ((compileTopdown S (semanticStore semHash negH key) varAt cnf numVars []).1 = .fls ↔
+    (hhash : HashSound spec) (hfree : FreeDecide spec) (cnf0 : Cnf) (numVars : Nat)
+    (hnew : NewSpec spec cnf0 numVars)
+    (hvarAt : ∀ v, InCnf cnf v → ∃ i, i < numVars ∧ varAt i = v)
+    (hrange : ∀ i, i < numVars → spec.Var (varAt i)) :
+    (∀ a, (compileTopdown S (semanticStore semHash negH key) varAt cnf0 numVars []).1.eval a = cnfSat a cnf) ∧
+    (compileTopdown S (semanticStore semHash negH key) varAt cnf0 numVars []).1.free ∧
+    ((compileTopdown S (semanticStore semHash negH key) varAt cnf0 numVars []).1 = .fls ↔
       ∀ a, cnfSat a cnf = false) :=
-  compileTopdown_correct_store spec (semanticStore_sound hcf) varAt hhash hfree numVars hnew hvarAt []
+  compileTopdown_correct_store spec (semanticStore_sound hcf) varAt hhash hfree cnf0 numVars hnew hvarAt hrange []
     (fun _ h => by cases h)
 
 /-- `topdown_h` with the semantic store — PARTIAL: under `CollisionFree` (same statement as
@@ -105,6 +120,7 @@ theorem topdownH_correct_semantic_partial (spec : SolverSpec cnf S) (varAt : Nat
     {H : Type} [DecidableEq H] (semHash : Ptr → H) (negH key : H → H) (hcf : CollisionFree semHash negH key)
     (hhash : HashSound spec) (hfree : FreeDecide spec)
     (numVars : Nat) (hvarAt : ∀ v, InCnf cnf v → ∃ i, i < numVars ∧ varAt i = v)
+    (hrange : ∀ i, i < numVars → spec.Var (varAt i))
     (rem level : Nat) (s : S.σ) (cache : Cache S.κ) (t : List (H × Ptr)) (f0 : Frame S.κ)
     (rest : List (Frame S.κ))
     (hl : level + rem = numVars) (hI : spec.Inv s) (hfr : spec.frames s = f0 :: rest)
@@ -113,7 +129,7 @@ theorem topdownH_correct_semantic_partial (spec : SolverSpec cnf S) (varAt : Nat
     let res := topdownH S (semanticStore semHash negH key) varAt rem level s cache t
     (∀ a, Extends a (spec.modelOf s) → res.1.eval a = cnfSat a cnf) ∧ res.1.free ∧
     (∀ v ∈ res.1.vars, spec.modelOf s v = none) :=
-  let h := topdownH_correct spec (semanticStore_sound hcf) varAt hhash hfree numVars hvarAt rem level s
+  let h := topdownH_correct spec (semanticStore_sound hcf) varAt hhash hfree numVars hvarAt hrange rem level s
     cache t f0 rest hl hI hfr hrest ht hc hlev
   ⟨h.1, h.2.1, fun v hv => (h.2.2.1 v hv).2.1⟩
 
@@ -183,7 +199,7 @@ theorem condOrig_wrong :
 /-- the executable reference solver `NaiveSolver` satisfies every hypothesis made on the solver,
 for every CNF -/
 theorem naiveSolver_satisfies (cnf : Cnf) (numVars : Nat) :
-    HashSound (naiveSpec cnf) ∧ FreeDecide (naiveSpec cnf) ∧ NewSpec (naiveSpec cnf) numVars :=
+    HashSound (naiveSpec cnf) ∧ FreeDecide (naiveSpec cnf) ∧ NewSpec (naiveSpec cnf) cnf numVars :=
   ⟨naive_hashSound cnf, naive_freeDecide cnf, naive_newSpec cnf numVars⟩
 
 /-- hence, with NO hypothesis: for every CNF the model compiler run with the reference solver
@@ -199,8 +215,8 @@ theorem naiveCompile_order_correct (cnf : Cnf) (varAt : Nat → Nat) (numVars : 
     (∀ a, (compileTopdown NaiveSolver standardStore varAt cnf numVars ()).1.eval a = cnfSat a cnf) ∧
     (compileTopdown NaiveSolver standardStore varAt cnf numVars ()).1.free ∧
     ((compileTopdown NaiveSolver standardStore varAt cnf numVars ()).1 = .fls ↔ ∀ a, cnfSat a cnf = false) :=
-  compileTopdown_correct (naiveSpec cnf) varAt (naive_hashSound cnf) (naive_freeDecide cnf) numVars
-    (naive_newSpec cnf numVars) hvarAt
+  compileTopdown_correct (naiveSpec cnf) varAt (naive_hashSound cnf) (naive_freeDecide cnf) cnf numVars
+    (naive_newSpec cnf numVars) hvarAt (fun _ _ => trivial)
 
 /-- an idealised collision-free "hash": the node itself, tagged; `negH` flips the tag -/
 def idealHash (p : Ptr) : Ptr × Bool := (p, false)
@@ -220,8 +236,8 @@ theorem naiveCompile_semantic_ideal (cnf : Cnf) :
     let r := (compileTopdown NaiveSolver (semanticStore idealHash idealNeg) id cnf (cnfNumVars cnf) []).1
     (∀ a, r.eval a = cnfSat a cnf) ∧ r.free ∧ (r = .fls ↔ ∀ a, cnfSat a cnf = false) :=
   compileTopdown_correct_semantic_partial (naiveSpec cnf) id idealHash idealNeg id idealHash_collisionFree
-    (naive_hashSound cnf) (naive_freeDecide cnf) (cnfNumVars cnf) (naive_newSpec cnf _)
-    (fun v hv => ⟨v, lt_cnfNumVars hv, rfl⟩)
+    (naive_hashSound cnf) (naive_freeDecide cnf) cnf (cnfNumVars cnf) (naive_newSpec cnf _)
+    (fun v hv => ⟨v, lt_cnfNumVars hv, rfl⟩) (fun _ _ => trivial)
 
 /-- a semantic hash in the prime field `P` as the Rust computes it: weighted count with the
 normalised weights `(w, 1 - w)`, `w = var + 2` -/
